@@ -119,7 +119,7 @@ def run(ctx) -> None:
     rep.rule("C07.R3", "cached values that depend on an attribute a derivation writes are dropped from the copy; invalidation resolves through the MRO", floor=6)
     rep.rule("C07.R5", "computing a graph's specification or validating it has no side effect on the nodes and graphs it is computed from", floor=25)
     rep.rule("C07.R4", "derivations return the clone / a new object, never the receiver", floor=10)
-    rep.rule("C07.R6", "values handed out by process-wide memo tables (lru_cache/cache functions, module-level containers) are immutable or never modified/escaped by a caller", floor=1)
+    rep.rule("C07.R6", "nothing shared process-wide lets derived objects influence one another: memo tables (lru_cache/cache functions, module-level containers) hand out immutable values or are never modified/escaped by a caller; the node cache tells a receiver from its with_inputs() derivative", floor=2)
 
     derivs = _derivations(db)
     graph_cls = db.cls("graph.core.Graph")
@@ -205,6 +205,15 @@ def run(ctx) -> None:
 
     # ---- R6 ---------------------------------------------------------------------
     check_process_memos(ctx, "C07.R6")
+    # a node derived with with_inputs differs from its receiver only by its rename history; with a shared node cache the
+    # two must not answer for each other: the history enters the key (each value is filed under the parameter it reaches)
+    from .c09 import cache_key_attrs
+
+    used7 = cache_key_attrs(ctx)
+    if used7 is None:
+        raise AnalysisError("compute_cache_key call not recognised")
+    cc7 = db.func("runners._shared.caching.check_cache")
+    rep.add("C07.R6", f"{cc7.qname}:derived-node-does-not-share-entries", "map_inputs_to_params" in used7, cc7.loc(), "the cache key files each value under the function parameter it reaches, so a receiver and its with_inputs() derivative never share an entry" if "map_inputs_to_params" in used7 else "the cache key is built under the node's current input names: n and n.with_inputs(a='b', b='a') get one key for equal values although they call the function with swapped arguments — on a cache-enabled runner the receiver's run result changes after a derived node was created and run (and the other way round)")
 
     # ---- R5 ---------------------------------------------------------------------
     n5 = 0
